@@ -11,6 +11,87 @@ from .core import Model, Ctx, AnalysisError, VERIF, load_known_findings
 EVID_DIR = os.path.join(VERIF, "evidence")
 
 
+def defined_names(tree):
+    """names a module defines: functions, methods, classes (any nesting), module- and class-level assigned names"""
+    import ast
+    out = set()
+    for n in ast.walk(tree):
+        if isinstance(n, (ast.FunctionDef, ast.AsyncFunctionDef, ast.ClassDef)):
+            out.add(n.name)
+    def assigned(body):
+        for st in body:
+            tgts = st.targets if isinstance(st, ast.Assign) else [st.target] if isinstance(st, (ast.AnnAssign, ast.AugAssign)) else []
+            for t in tgts:
+                for x in ast.walk(t):
+                    if isinstance(x, ast.Name):
+                        out.add(x.id)
+            if isinstance(st, ast.ClassDef):
+                assigned(st.body)
+    assigned(tree.body)
+    return out
+
+
+_KNOWN = None
+
+
+def novelty_guard(model, ctx):
+    """Violations located in a function that now uses a definition unknown when the rules were written (sa/known_names.json)
+    are turned into analysis errors: the rule's idea of where the logic lives no longer holds (extract-method, a table moved
+    to module level, a new property), so a mismatch is not evidence that the property is broken."""
+    import ast
+    global _KNOWN
+    if _KNOWN is None:
+        try:
+            _KNOWN = {k: set(v) for k, v in json.load(open(os.path.join(VERIF, "sa", "known_names.json"))).items()}
+        except OSError:
+            _KNOWN = {}
+    if not _KNOWN:
+        return []
+    new_names = set()
+    for rel in model.all_files():
+        try:
+            now = defined_names(model.mod(rel).tree)
+        except Exception:
+            continue
+        new_names |= now - _KNOWN.get(rel, set() if rel in _KNOWN else now)
+    new_names = {n for n in new_names if not (n.startswith("__") and n.endswith("__"))}
+    if not new_names:
+        return []
+    moved, keep = [], []
+    for v in ctx.violations:
+        rel, _, line = v["where"].partition(":")
+        hit = None
+        try:
+            line = int(line.split(":")[0])
+            tree = model.mod(rel).tree
+            best = None
+            for n in ast.walk(tree):
+                if isinstance(n, (ast.FunctionDef, ast.AsyncFunctionDef)) and n.lineno <= line <= (n.end_lineno or n.lineno):
+                    if best is None or n.lineno <= best.lineno:      # outermost enclosing function: its closures count
+                        best = n
+            if best is None:
+                # a class-level location: the innermost class
+                for n in ast.walk(tree):
+                    if isinstance(n, ast.ClassDef) and n.lineno <= line <= (n.end_lineno or n.lineno):
+                        if best is None or n.lineno >= best.lineno:
+                            best = n
+            if best is not None:
+                used = {x.id for x in ast.walk(best) if isinstance(x, ast.Name)} | {x.attr for x in ast.walk(best) if isinstance(x, ast.Attribute)}
+                hit = sorted(used & new_names)
+        except Exception:
+            hit = None
+        if hit:
+            moved.append(f"{v['rule']}: {v['construct']}: the code at {v['where']} now relies on {hit[:4]}, defined after the rules "
+                         f"were written; the rule does not model it (its mismatch was: {v['message'][:160]})")
+            for o in ctx.obligations:
+                if o.get("rule") == v["rule"] and o.get("construct") == v["construct"] and o.get("status") == "VIOLATED":
+                    o["status"] = "unrecognised"
+        else:
+            keep.append(v)
+    ctx.violations[:] = keep
+    return moved
+
+
 def run_rules(prop, model, tier="quick", seed=0):
     """Returns (ctx, errors) — errors are AnalysisError texts per rule."""
     mod = importlib.import_module(f"sa.rules.{prop.lower()}")
@@ -29,6 +110,7 @@ def run_rules(prop, model, tier="quick", seed=0):
             tb = traceback.format_exc(limit=6)
             errors.append(f"{rule_id}: internal error {type(e).__name__}: {e}\n{tb}")
     errors.extend(ctx.deferred)
+    errors.extend(novelty_guard(model, ctx))
     for rule_id, minimum in minimums.items():
         if any(err.startswith(rule_id + ":") for err in errors):
             continue
